@@ -512,4 +512,39 @@ def x10(ctx):
                           "ComponentFilter.match_indexes can answer True although nothing established that the component exists (the presence marker "
                           "indexes[\"C=<name>\"] is skipped when `%s`): resources without such a component are returned once the index is in use"
                           % " and ".join(("" if pol else "not ") + src(t) for t, pol in req if "self." in src(t))))
+    # per-value evaluators: the indexed answer is "some indexed value matches", decided by the very match() the naive path
+    # uses - nothing is applied to the aggregate afterwards (a negation over `any([])` turns 'property absent' into a match)
+    for cq in (ICAL + ".TextMatcher", ICAL + ".PropertyTimeRangeMatcher"):
+        mi = ctx.own_method(cq, "match_indexes")
+        mcfg = ctx.cfg(mi)
+        mdu = DefUse(mcfg)
+        mrets = [n for n in mcfg.nodes if n.kind == "return"]
+        if not mrets:
+            raise AnalysisError("%s.match_indexes has no return" % cq)
+        uses_match = any(dotted(c.func) == "self.match" for n in mcfg.stmt_nodes() for c in n.calls()) or \
+            any(n.kind == "test" and isinstance(n.ast, ast.Call) and dotted(n.ast.func) == "self.match" for n in mcfg.nodes)
+        bad_ret = None
+        for r in mrets:
+            v = r.ast.value
+            for o in (origins(mdu, r, v) if v is not None else []):
+                lf = o.leaf
+                if o.kind == "expr" and isinstance(lf, ast.Constant) and isinstance(lf.value, bool):
+                    continue
+                if o.kind == "expr" and isinstance(lf, ast.Call) and dotted(lf.func) == "self.match":
+                    continue
+                bad_ret = src(lf) if lf is not None else o.kind
+        obs.append(ctx.ob(uses_match and bad_ret is None, mi.qualname, mi.where, "indexed answer = any(self.match(value))",
+                          "some indexed value satisfies match(); nothing is applied to the aggregate",
+                          "%s.match_indexes answers `%s`: the result of the per-value match() is post-processed (or match() is bypassed), so a resource "
+                          "whose component lacks the property - an empty value list - can satisfy the filter on the index path although the naive "
+                          "path requires the property to exist" % (cq.split(".")[-1], bad_ret or "without calling self.match")))
     return obs
+
+
+@rule("C10", "X11", floor=2, kind="N",
+      desc="the index is keyed by content: the ETag under which index values are stored identifies the bytes they were "
+           "computed from (the vdir obligations of C02/E3) - with an ETag taken from stat() the indexed path answers from "
+           "the values of a previous content")
+def x11(ctx):
+    from .c02 import e3
+    return [o for o in e3(ctx) if "VdirStore" in o.construct]
